@@ -254,7 +254,13 @@ def _str_escape(s: str) -> str:
     return s
 
 def _bytes_escape(b: bytes) -> str:
-    return repr(b)[2:-1]
+    r = repr(b)
+    body = r[2:-1]
+    if r[1] == '"':
+        # repr() switched to double quotes because the value contains a single quote, 
+        # but the value is always displayed inside single quotes.
+        body = body.replace("'", "\\'")
+    return body
 
 class PyvalColorizer:
     """
